@@ -39,6 +39,19 @@ theorem saveAlways_spec (p : Part) (h : WF p) :
   · simp only [abs]
     rw [h4]; rfl
 
+/-- An always-written part is saved correctly whatever its flags say — no well-formedness needed.
+This is why content changes that bypass the dirty flag (font guideline attributes) still persist. -/
+theorem saveAlways_exact (p : Part) :
+    (saveAlways p).disk = abs p ∧ abs (saveAlways p) = abs p ∧ (saveAlways p).dirty = false ∧ WF (saveAlways p) := by
+  unfold saveAlways get abs WF
+  cases hl : p.loaded with
+  | some b => simp [hl]
+  | none => simp [hl]
+
+theorem setQuiet_abs (p : Part) (b : Blob) : abs (setQuiet p b) = b := by
+  unfold setQuiet get abs
+  cases hl : p.loaded <;> simp [hl]
+
 theorem saveIfDirty_spec (sa : Bool) (p : Part) (h : WF p) :
     WF (saveIfDirty sa p) ∧ abs (saveIfDirty sa p) = abs p ∧ (saveIfDirty sa p).disk = abs p ∧
     (saveIfDirty sa p).dirty = false := by
